@@ -12,6 +12,10 @@ Protocol (one op per line; the first line of a case is `cfg`):
                                                           renew(), renew(reset_errors=r, amount=n), trigger_apoptosis(reason="x")
   set thr n | set allow 0|1 | set life q|none | set idle q|none    a public configuration attribute is re-assigned on the live
                                                           lifecycle (search/correspondence only: outside the quantifier)
+  cb 0|1|2                                               callbacks of the current lifecycle from now on: return / on_phase_change
+                                                          raises / on_senescence raises (each after recording the event);
+                                                          a call ended by that exception shows ret `!`  (outside the property's
+                                                          assumption "callbacks return": model stepCb + oracle clauses below)
 Observation after each op:
   ret phase length errors ops renewals reason age [callback events] lockTrace is_operational is_active time_remaining ops_remaining
 `hang` when the call never returns (afterwards the object is abandoned: `dead`).
@@ -76,6 +80,10 @@ class RecLock:
         self.release()
 
 
+class _Boom(Exception):
+    """what a raising callback of the harness raises"""
+
+
 def _num(s: str):
     return int(s) if s.isdigit() else None
 
@@ -94,10 +102,11 @@ class C09(Prop):
         "tick:senescent", "tick:senescent-depleted", "err:threshold", "err:threshold-noop", "err:rate", "err:rate-noop",
         "err:ok", "hb", "timeouts:inactive", "timeouts:lifetime", "timeouts:idle", "timeouts:ok", "renew:disallowed",
         "renew:terminated", "renew:recover", "renew:extend", "apo:terminated", "apo:go", "term", "reset", "adv",
-        "new", "use:old", "use:fresh", "set"]
+        "new", "use:old", "use:fresh", "set", "cb", "cb:raised"]
     assumptions = [
         "tick cost and renew amount are natural numbers (a negative cost/amount is outside the property's quantifier)",
-        "on_phase_change / on_senescence callbacks return; they do not call back into the lifecycle",
+        "on_phase_change / on_senescence callbacks return (callbacks that RAISE are explored too: model stepCb, theorem "
+        "c09_raising_callback_call_is_consistent); they do not call back into the lifecycle",
         "float comparisons length/max <= 0.1 and errors/ops >= 0.5 coincide with the exact fractions for the sizes explored",
         "threading.Lock / RLock semantics: a holder re-acquiring a Lock blocks forever, an RLock nests",
         "the clock is datetime.now() of the telomere module, replaced by a virtual microsecond clock",
@@ -178,9 +187,9 @@ class C09(Prop):
         for v, unit in ((l, LIFE_UNIT), (i, IDLE_UNIT)):
             if v not in ("none", "0"):
                 lims.append(int(v) * unit)
-        prof = rng.choice(["mixed", "mixed", "long", "errors", "time", "early", "resets", "multi", "multi", "reconf"])
+        prof = rng.choice(["mixed", "mixed", "long", "errors", "time", "early", "resets", "multi", "multi", "reconf", "cbraise"])
         w = {"start": 2, "tick": 8, "err": 3, "hb": 1, "timeouts": 3, "renew": 3, "apo": 1, "term": 1, "rst": 1, "adv": 3,
-             "use": 0, "new": 0, "set": 0.4}
+             "use": 0, "new": 0, "set": 0.4, "cb": 0.15}
         if prof == "long":
             w.update(tick=16, apo=0.2, term=0.2, rst=0.3)
         elif prof == "errors":
@@ -192,6 +201,10 @@ class C09(Prop):
         elif prof == "resets":
             # several resets on one lifecycle with activity in between: each epoch is judged on its own counts
             w.update(rst=5, tick=10, err=6, renew=2, start=2, apo=0.5, term=0.5, timeouts=1, adv=1, new=1, use=1)
+        elif prof == "cbraise":
+            # callbacks that raise (outside the assumption "callbacks return"): the call must still leave a legal state,
+            # release the lock, and the next calls must work
+            w.update(cb=4, err=5, renew=4, timeouts=3, adv=3, tick=9, apo=1, term=1, use=1)
         elif prof == "reconf":
             # public configuration attributes re-assigned on the live lifecycle
             w.update(set=7, err=5, renew=5, timeouts=4, adv=4, tick=8)
@@ -223,6 +236,8 @@ class C09(Prop):
                              else f"renewk {amt} {r_}")
             elif op == "apo":
                 lines.append("apo" if rng.random() > 0.3 else "apor")
+            elif op == "cb":
+                lines.append(f"cb {rng.choice([1, 1, 2, 0])}")
             elif op == "set":
                 what = rng.choice(["thr", "thr", "allow", "allow", "life", "idle"])
                 if what == "thr":
@@ -264,7 +279,7 @@ class C09(Prop):
 
     def generate(self, rng, tier, n):
         bad = ["tick", "tick -1", "tick x", "renew", "renew -3 1", "adv -5", "frobnicate", "renew 1", "tick 1 2", "use",
-               "use x", "new 1", "use -1", "set", "set thr", "set foo 1", "set allow x", "tickk", "renewk 1"]
+               "use x", "new 1", "use -1", "set", "set thr", "set foo 1", "set allow x", "tickk", "renewk 1", "cb", "cb 3", "cb x"]
         for k in range(n):
             c = self._rand_case(rng)
             if k % 40 == 39:       # small malformed stream: both sides must answer bad-op and carry on
@@ -293,6 +308,17 @@ class C09(Prop):
     def _new(self, t, fresh_clock=True):
         T = self.T
         evs: list[str] = []
+        mode = {"m": 0}           # 0 callbacks return, 1 on_phase_change raises, 2 on_senescence raises (after recording)
+
+        def on_change(x, y):
+            evs.append(f"{PH.get(x.value, '?')}>{PH.get(y.value, '?')}")
+            if mode["m"] == 1:
+                raise _Boom("on_phase_change")
+
+        def on_sen(r):
+            evs.append(f"sen:{RS.get(r.value, '?')}")
+            if mode["m"] == 2:
+                raise _Boom("on_senescence")
         m, e, a = int(t[1]), int(t[2]), t[3] == "1"
         lh = None if t[4] == "none" else int(t[4]) / 4
         im = None if t[5] == "none" else int(t[5]) / 4
@@ -300,11 +326,10 @@ class C09(Prop):
             self.clock.us = 0
         obj = T.Telomere(
             max_operations=m, max_lifetime_hours=lh, idle_timeout_minutes=im, error_threshold=e, allow_renewal=a,
-            on_phase_change=lambda x, y: evs.append(f"{PH.get(x.value, '?')}>{PH.get(y.value, '?')}"),
-            on_senescence=lambda r: evs.append(f"sen:{RS.get(r.value, '?')}"), silent=True)
+            on_phase_change=on_change, on_senescence=on_sen, silent=True)
         lock = RecLock(obj._lock)
         obj._lock = lock
-        return obj, evs, lock
+        return obj, evs, lock, mode
 
     def _observe(self, obj):
         st = obj.get_status()
@@ -339,9 +364,9 @@ class C09(Prop):
         def construct(k, toks, fresh_clock):
             kind, val = call_guarded(lambda: self._new(toks, fresh_clock))
             if kind != "ok":
-                slots[k] = [None, [], None, True]
+                slots[k] = [None, [], None, True, {"m": 0}]
                 return "hang" if kind == "hang" else f"raise:{type(val).__name__}"
-            slots[k] = [val[0], val[1], val[2], False]
+            slots[k] = [val[0], val[1], val[2], False, val[3]]
             return self._first_obs(val[0])
 
         for line in case["lines"]:
@@ -372,7 +397,7 @@ class C09(Prop):
             if not slots:
                 construct(0, cfg0, True)
             ent = slots.get(cur)
-            obj, evs, lock, dead = ent if ent is not None else (None, [], None, True)
+            obj, evs, lock, dead, mode = ent if ent is not None else (None, [], None, True, {"m": 0})
             if t == ["start"]:
                 fn = lambda: obj.start()
             elif len(t) == 2 and t[0] == "tick" and _num(t[1]) is not None:
@@ -410,6 +435,8 @@ class C09(Prop):
                 fn = lambda: setattr(obj, "max_lifetime" if t[1] == "life" else "idle_timeout", val_)
             elif len(t) == 2 and t[0] == "adv" and _num(t[1]) is not None:
                 fn = lambda: self.clock.advance_us(int(t[1]))
+            elif len(t) == 2 and t[0] == "cb" and t[1] in ("0", "1", "2"):
+                fn = lambda: mode.__setitem__("m", int(t[1]))
             if fn is None:
                 obs.append("bad-op")
                 continue
@@ -419,7 +446,13 @@ class C09(Prop):
             del evs[:]
             del lock.events[:]
             # the call and the read-back of the observable state run in ONE watchdog-supervised thread
-            kind, val = call_guarded(lambda: (fn(), self._obs2(obj)), timeout=self.watchdog_s)
+            def call():
+                try:
+                    r_ = fn()
+                except _Boom:             # the harness's own callback raised: the call ended by that exception
+                    r_ = _Boom
+                return r_, self._obs2(obj)
+            kind, val = call_guarded(call, timeout=self.watchdog_s)
             if kind == "hang":
                 self.watchdog_hangs = getattr(self, "watchdog_hangs", 0) + 1
                 self.watchdog_s = 0.25 if self.watchdog_hangs < 20 else 0.1
@@ -431,7 +464,8 @@ class C09(Prop):
                 obs.append(f"raise:{type(val).__name__}")
                 continue
             val, v2 = val
-            ret = "-" if val is None else ("1" if val is True else "0" if val is False else f"?{val!r}")
+            ret = ("!" if val is _Boom else "-" if val is None else "1" if val is True else "0" if val is False
+                   else f"?{val!r}")
             obs.append(f"{ret} {v2[0]} [{','.join(evs)}] {''.join(lock.events) or '-'} {v2[1]}")
         return obs, None
 
@@ -462,6 +496,7 @@ class C09(Prop):
                 "unit_true": 0,       # unit ticks that reported True since the last renewal / reset
                 "errs": 0,            # record_error() calls since the last reset / granted renew(reset_errors=True)
                 "ops": 0,             # ticks performed (not refused as APOPTOTIC/TERMINATED) since the last reset
+                "ops_lo": 0,          # ... of which completed (not cut short by a raising callback)
             }
 
         for i, (line, o) in enumerate(zip(case["lines"], obs)):
@@ -529,6 +564,11 @@ class C09(Prop):
                     V("dead_never_ticks", f"is_operational() is False exactly when APOPTOTIC/TERMINATED [phase {ph}]", f[10], i)
                 if f[13] != f[2]:
                     V("length_in_bounds", f"operations_remaining == remaining length {ln}", f[13], i)
+            if op == "cb":
+                if ph != phase or ln != length:
+                    V("legal_transitions", f"phase {phase}, length {length}: no method was called", f"{ph}, {ln} at {line!r}", i)
+                r["phase"], r["length"] = ph, ln
+                continue
             if op == "set":
                 # a public configuration attribute re-assigned on the live lifecycle: later calls are judged by the new value
                 if t[1] == "thr":
@@ -589,12 +629,14 @@ class C09(Prop):
             if op == "tick":
                 if phase in ("P", "T") and (ret != "0" or ln != length):
                     V("dead_never_ticks", f"False and length {length}", f"{ret} and length {ln}", i)
-                if (ret == "1") != (ph == "A") or ret not in ("0", "1"):
+                if ret != "!" and ((ret == "1") != (ph == "A") or ret not in ("0", "1")):   # `!`: ended by the callback's exception
                     V("tick_true_iff_active_after", f"{'1' if ph == 'A' else '0'} (phase {ph})", ret, i)
-                if ph == "A" and ln <= 0:
+                if ph == "A" and ln <= 0 and ret != "!":
                     V("limits_force_senescence", "depleted lifecycle is not ACTIVE", f"length {ln} phase {ph}", i)
                 if phase not in ("P", "T"):
                     r["ops"] += 1
+                    if ret != "!":          # a tick ended by a raising callback may or may not have been counted
+                        r["ops_lo"] += 1
             # ---- bounds
             if not (0 <= ln <= maxo):
                 V("length_in_bounds", f"0 <= length <= {maxo}", f"{ln} after {line!r}", i)
@@ -605,12 +647,12 @@ class C09(Prop):
             if op == "renew":
                 if (not allow or phase == "T") and (ret != "0" or ln != length or ph != phase):
                     V("renew_refused", f"False, phase {phase}, length {length}", f"{ret}, phase {ph}, length {ln}", i)
-                if ret == "1":
+                if ret in ("1", "!"):     # granted (`!`: granted, then the transition callback raised)
                     r["unit_true"] = 0
                     if t[2] in ("1", "true", "True"):
                         r["errs"] = 0
             if op == "rst":
-                r["unit_true"], r["start_at"], r["last_touch"], r["errs"], r["ops"] = 0, None, None, 0, 0
+                r["unit_true"], r["start_at"], r["last_touch"], r["errs"], r["ops"], r["ops_lo"] = 0, None, None, 0, 0, 0
             # ---- limits force senescence (this lifecycle's own errors / operations since its own last reset)
             if op == "err":
                 r["errs"] += 1
@@ -618,7 +660,7 @@ class C09(Prop):
                     if r["errs"] >= thr:
                         V("limits_force_senescence",
                           f"SENESCENT once this lifecycle's errors ({r['errs']}) reach its threshold {thr}", ph, i)
-                    elif r["ops"] > 0 and Fraction(r["errs"], r["ops"]) >= RATE:
+                    elif r["ops_lo"] > 0 and Fraction(r["errs"], r["ops"]) >= RATE:
                         V("limits_force_senescence",
                           f"SENESCENT once this lifecycle's error rate ({r['errs']}/{r['ops']} since its last reset) "
                           f"reaches {RATE}", ph, i)
